@@ -7,6 +7,7 @@ import (
 	"fmt"
 	"os"
 	"os/exec"
+	"runtime/pprof"
 	"strings"
 	"sync"
 	"time"
@@ -80,10 +81,11 @@ func c11Universe() (*univ.Universe, map[string]int) {
 // ---- one victim + optional honest peer + one scripted peer -----------------------------------------------------
 
 type c11rig struct {
-	c *cluster
-	v *member
-	h *member
-	b *byz
+	name string // set by judge
+	c    *cluster
+	v    *member
+	h    *member
+	b    *byz
 }
 
 func victimOpts() []syncer.Option {
@@ -128,8 +130,13 @@ func newC11Rig(u *univ.Universe, vStart, hTip, bTip int, mut *mutation, order st
 
 func (r *c11rig) close() {
 	r.b.close()
-	r.c.close()
+	if hung := r.c.close(); len(hung) > 0 {
+		c11hung.Store(r.name, hung[0])
+	}
 }
+
+// c11hung: scenario name -> why a member could not be shut down (filled by close, read by the runner)
+var c11hung sync.Map
 
 // settle waits until the victim has reached at least the work of `atLeast` (universe node, -1: none) and the
 // scripted peer has seen no request for 1.3 s (more than one worker tick of parallelSync) or is disconnected;
@@ -171,6 +178,7 @@ var c11info sync.Map
 // judge applies the common oracles.
 func (r *c11rig) judge(desc string, hTip int, reached bool, expectBan string) (string, string) {
 	u := r.c.u
+	r.name = desc
 	r.b.mu.Lock()
 	info := map[string]bool{"mutation_fired": r.b.applied, "served_invalid_block": r.b.servedInvalid, "ban_expected": expectBan != "", "peer_requests_seen": len(r.b.seen) > 0}
 	r.b.mu.Unlock()
@@ -311,6 +319,7 @@ func c11Scenarios(thorough bool) []c11scn {
 		}
 	}
 	out = append(out, c11Announcements(u, tips, thorough)...)
+	out = append(out, c11Rewrites(u, tips)...)
 	out = append(out, c11Requests(u, tips)...)
 	return out
 }
@@ -353,7 +362,40 @@ func c11Child(spec string) {
 			defer wg.Done()
 			defer func() { <-sem }()
 			emit(c11line{Start: &i, Name: scns[i].Name})
-			sig, what := scns[i].Run()
+			// every wait inside a scenario is bounded except the victim's own Close; a scenario that does
+			// not return is a victim that cannot be shut down (or a blocked handler holding it open)
+			type res struct{ sig, what string }
+			ch := make(chan res, 1)
+			go func() {
+				sig, what := scns[i].Run()
+				ch <- res{sig, what}
+			}()
+			var sig, what string
+			select {
+			case r := <-ch:
+				sig, what = r.sig, r.what
+			case <-time.After(4 * time.Minute):
+				var buf bytes.Buffer
+				pprof.Lookup("goroutine").WriteTo(&buf, 1)
+				dump := buf.String()
+				if j := strings.Index(dump, "syncer.(*Syncer).Close"); j >= 0 {
+					lo := j - 600
+					if lo < 0 {
+						lo = 0
+					}
+					hi := j + 1200
+					if hi > len(dump) {
+						hi = len(dump)
+					}
+					dump = dump[lo:hi]
+				} else if len(dump) > 2000 {
+					dump = dump[:2000]
+				}
+				sig, what = "c11:scenario-stalled", scns[i].Name+": the scenario did not finish within 4 minutes (all harness waits are bounded; the victim's Close is not): "+dump
+			}
+			if h, ok := c11hung.Load(scns[i].Name); ok && sig == "" {
+				sig, what = "c11:victim-cannot-be-shut-down", scns[i].Name+": "+h.(string)
+			}
 			var info map[string]bool
 			if v, ok := c11info.Load(scns[i].Name); ok {
 				info = v.(map[string]bool)
